@@ -276,3 +276,81 @@ c15_scalar!(c15_scalar_str_int, 6, |a, b| {
     let y: i64 = kani::any();
     ((Mini::Str(s1), Value::String(String::from(s1))), (Mini::Int(y), vnum_i(y)))
 });
+
+// ---------------------------------------------------------------------------
+// C04: operator dispatch in Comparison::process: != is not ==, <= is < or ==,
+// > and >= are the mirrored forms; for two numbers / two strings exactly one of
+// <, ==, > holds. Operands: literals (owned values) and the current node `@`.
+use crate::parser::model::{Comparison, Literal};
+use crate::query::Query;
+fn run_cmp<A, B>(c: &MCmp<A, B>, root: &Mini, node: &Mini) -> bool {
+    let r = as_cmp(c).process(State::data(root, Data::Ref(Pointer::new(node, String::from("p")))));
+    let b = matches!(r.data, Data::Value(Mini::Bool(true)));
+    forget(r);
+    b
+}
+macro_rules! c04_ops {
+    ($name:ident, $unwind:expr, |$x:ident, $y:ident| $gen:block, $lit:expr) => {
+        proof!($name, $unwind, {
+            let root = Mini::Null;
+            // lhs = literal built from x, rhs = the current node y
+            let ($x, $y): (Mini, Mini) = $gen;
+            let (sx, sy) = (Some($x), Some($y));
+            let (s_eq, s_lt, s_gt) = (spec_eq(&sx, &sy), spec_lt(&sx, &sy), spec_lt(&sy, &sx));
+            let mut e = m_sqs_index(0);
+            let lit = $lit;
+            let mk = |tag: u8, e: &mut MSqsIndex| MCmp { tag, a: mc_lit(lit(&$x)), b: mc_sq(SQ_CURRENT, sqs_empty(e)) };
+            let c_eq = mk(OP_EQ, &mut e);
+            assert!(run_cmp(&c_eq, &root, &$y) == s_eq, "`==` differs from RFC 9535");
+            forget(c_eq);
+            let c_ne = mk(OP_NE, &mut e);
+            assert!(run_cmp(&c_ne, &root, &$y) == !s_eq, "`!=` must be the negation of `==`");
+            forget(c_ne);
+            let c_lt = mk(OP_LT, &mut e);
+            assert!(run_cmp(&c_lt, &root, &$y) == s_lt, "`<` differs from RFC 9535");
+            forget(c_lt);
+            let c_lte = mk(OP_LTE, &mut e);
+            assert!(run_cmp(&c_lte, &root, &$y) == (s_lt || s_eq), "`<=` must be `<` or `==`");
+            forget(c_lte);
+            let c_gt = mk(OP_GT, &mut e);
+            assert!(run_cmp(&c_gt, &root, &$y) == s_gt, "`>` must be the mirrored `<`");
+            forget(c_gt);
+            let c_gte = mk(OP_GTE, &mut e);
+            assert!(run_cmp(&c_gte, &root, &$y) == (s_gt || s_eq), "`>=` must be `>` or `==`");
+            forget(c_gte);
+            kani::cover!(s_eq, "equal operands");
+            kani::cover!(s_lt, "literal less than node");
+            kani::cover!(s_gt, "literal greater than node");
+        });
+    };
+}
+c04_ops!(c04_ops_int_int, 4, |x, y| { (Mini::Int(any_ijson()), Mini::Int(kani::any())) }, |m: &Mini| match m { Mini::Int(i) => Literal::Int(*i), _ => Literal::Null });
+c04_ops!(c04_ops_float_int, 4, |x, y| { (Mini::Float(any_finite_f64()), Mini::Int(any_ijson())) }, |m: &Mini| match m { Mini::Float(f) => Literal::Float(*f), _ => Literal::Null });
+c04_ops!(c04_ops_int_float, 4, |x, y| { (Mini::Int(any_ijson()), Mini::Float(any_finite_f64())) }, |m: &Mini| match m { Mini::Int(i) => Literal::Int(*i), _ => Literal::Null });
+// cross-type and nothing: only != is true
+proof!(c04_ops_cross, 4, {
+    let root = Mini::Null;
+    let y = Mini::Bool(kani::any());
+    let i = any_ijson();
+    let mut e = m_sqs_index(0);
+    let mk = |tag: u8, e: &mut MSqsIndex| MCmp { tag, a: mc_lit(Literal::Int(i)), b: mc_sq(SQ_CURRENT, sqs_empty(e)) };
+    let c = mk(OP_EQ, &mut e);
+    assert!(!run_cmp(&c, &root, &y), "int == bool must be false");
+    forget(c);
+    let c = mk(OP_NE, &mut e);
+    assert!(run_cmp(&c, &root, &y), "int != bool must be true");
+    forget(c);
+    let c = mk(OP_LT, &mut e);
+    assert!(!run_cmp(&c, &root, &y), "int < bool must be false");
+    forget(c);
+    let c = mk(OP_LTE, &mut e);
+    assert!(!run_cmp(&c, &root, &y), "int <= bool must be false");
+    forget(c);
+    let c = mk(OP_GT, &mut e);
+    assert!(!run_cmp(&c, &root, &y), "int > bool must be false");
+    forget(c);
+    let c = mk(OP_GTE, &mut e);
+    assert!(!run_cmp(&c, &root, &y), "int >= bool must be false");
+    forget(c);
+    kani::cover!(true, "end reached");
+});
